@@ -195,4 +195,372 @@ theorem normalise_commentLines (c : Comment) (hsegs : ∀ s ∈ splitLines c.par
   obtain ⟨parsed⟩ := c
   simp only [ofString, normalise, String.toList_ofList, hsplit, hfold, joinNL_splitLines, String.ofList_toList]
 
+/-! ### comments in normal form; continuation lines with an indentation -/
+
+/-- a comment as `Comment.__init__` produces it: its pieces (separated by `\n`) are empty or normal, and it is not
+    the empty text -/
+def NormalComment (c : Comment) : Prop :=
+  (∀ s ∈ splitLines c.parsed.toList, s = [] ∨ NormalSeg s) ∧ clines (splitLines c.parsed.toList) ≠ []
+
+/-- the lines of a comment token: the first as it is, the following ones with the white space that precedes them -/
+def deco (pre : List Char) : List (List Char) → List (List Char)
+  | [] => []
+  | l :: more => l :: more.map (pre ++ ·)
+
+theorem dropWhile_strip_prefix : ∀ (pre x : List Char), pre.all isStripChar = true →
+    (pre ++ x).dropWhile isStripChar = x.dropWhile isStripChar := by
+  intro pre
+  induction pre with
+  | nil => intro _ _; rfl
+  | cons a rest ih =>
+    intro x h
+    simp only [List.all_cons, Bool.and_eq_true] at h
+    simp only [List.cons_append, List.dropWhile, h.1, ih x h.2]
+
+theorem stripLine_prefix (pre x : List Char) (h : pre.all isStripChar = true) : stripLine (pre ++ x) = stripLine x := by
+  simp only [stripLine, dropWhile_strip_prefix pre x h]
+
+theorem step_prefix (st : List Char × Bool) (pre x : List Char) (h : pre.all isStripChar = true) :
+    step st (pre ++ x) = step st x := by
+  simp only [step, stripLine_prefix pre x h]
+
+theorem foldl_step_map_prefix (pre : List Char) (h : pre.all isStripChar = true) : ∀ (ls : List (List Char)) (st : List Char × Bool),
+    (ls.map (pre ++ ·)).foldl step st = ls.foldl step st := by
+  intro ls
+  induction ls with
+  | nil => intro _; rfl
+  | cons l rest ih => intro st; simp only [List.map_cons, List.foldl_cons, step_prefix st pre l h, ih]
+
+theorem foldl_step_deco (pre : List Char) (h : pre.all isStripChar = true) (ls : List (List Char)) (st : List Char × Bool) :
+    (deco pre ls).foldl step st = ls.foldl step st := by
+  cases ls with
+  | nil => rfl
+  | cons l more => simp only [deco, List.foldl_cons, foldl_step_map_prefix pre h]
+
+theorem deco_ne_nil (pre : List Char) (ls : List (List Char)) (h : ls ≠ []) : deco pre ls ≠ [] := by
+  cases ls with
+  | nil => exact absurd rfl h
+  | cons l more => simp [deco]
+
+theorem no_nl_deco (pre : List Char) (hpre : '\n' ∉ pre) (ls : List (List Char)) (h : ∀ l ∈ ls, '\n' ∉ l) :
+    ∀ l ∈ deco pre ls, '\n' ∉ l := by
+  cases ls with
+  | nil => intro l hl; cases hl
+  | cons l0 more =>
+    intro l hl
+    simp only [deco, List.mem_cons, List.mem_map] at hl
+    rcases hl with rfl | ⟨x, hx, rfl⟩
+    · exact h _ List.mem_cons_self
+    · intro hm
+      rcases List.mem_append.1 hm with hm | hm
+      · exact hpre hm
+      · exact h x (List.mem_cons_of_mem _ hx) hm
+
+/-- the text of a comment token whose continuation lines are indented is normalised to the comment as well -/
+theorem normalise_deco (c : Comment) (hc : NormalComment c) (pre : List Char) (hpre : pre.all isStripChar = true)
+    (hnl : '\n' ∉ pre) :
+    Comment.ofString (String.ofList (joinNL (deco pre (clines (splitLines c.parsed.toList))))) = c := by
+  obtain ⟨hsegs, hne⟩ := hc
+  have hsplit := splitLines_joinNL (deco pre (clines (splitLines c.parsed.toList))) (deco_ne_nil pre _ hne)
+    (no_nl_deco pre hnl _ (no_nl_clines _ hsegs))
+  have hfold := foldl_step_clines (splitLines c.parsed.toList) [] hsegs (splitLines_ne_nil _)
+  simp only [List.nil_append] at hfold
+  obtain ⟨parsed⟩ := c
+  simp only [ofString, normalise, String.toList_ofList, hsplit, foldl_step_deco pre hpre, hfold, joinNL_splitLines,
+    String.ofList_toList]
+
+/-! ### every comment the parser builds is in normal form -/
+
+theorem head_dropWhile_not (p : Char → Bool) : ∀ (l : List Char) (c : Char), (l.dropWhile p).head? = some c → p c = false := by
+  intro l
+  induction l with
+  | nil => intro c h; cases h
+  | cons a t ih =>
+    intro c h
+    simp only [List.dropWhile] at h
+    cases hp : p a with
+    | true => rw [hp] at h; exact ih c h
+    | false => rw [hp] at h; simp only [List.head?_cons, Option.some.injEq] at h; subst h; exact hp
+
+theorem getLast_dropWhile (p : Char → Bool) : ∀ (l : List Char), l.dropWhile p ≠ [] → (l.dropWhile p).getLast? = l.getLast? := by
+  intro l
+  induction l with
+  | nil => intro h; exact absurd rfl h
+  | cons a t ih =>
+    intro h
+    cases hp : p a with
+    | true =>
+      simp only [List.dropWhile, hp] at h ⊢
+      have ht : t ≠ [] := by intro he; subst he; exact h rfl
+      rw [ih h]
+      cases t with
+      | nil => exact absurd rfl ht
+      | cons b r => rfl
+    | false => simp only [List.dropWhile, hp]
+
+/-- a stripped line that is not empty is a normal piece -/
+theorem normalSeg_stripLine (line : List Char) (hnl : '\n' ∉ line) (hne : stripLine line ≠ []) : NormalSeg (stripLine line) := by
+  unfold stripLine at hne ⊢
+  have hy : (line.dropWhile isStripChar).reverse.dropWhile isStripChar ≠ [] := by
+    intro h; rw [h] at hne; exact hne rfl
+  refine ⟨hne, ?_, ?_, ?_⟩
+  · intro hm
+    rw [List.mem_reverse] at hm
+    have h1 := (List.dropWhile_sublist isStripChar).subset hm
+    rw [List.mem_reverse] at h1
+    exact hnl ((List.dropWhile_sublist isStripChar).subset h1)
+  · intro c hc
+    rw [List.head?_reverse, getLast_dropWhile _ _ hy, List.getLast?_reverse] at hc
+    exact head_dropWhile_not _ _ c hc
+  · intro c hc
+    rw [List.getLast?_reverse] at hc
+    exact head_dropWhile_not _ _ c hc
+
+/-- the lines of `a ++ b`: the last line of `a` continues with the first line of `b` -/
+def glue : List (List Char) → List (List Char) → List (List Char)
+  | [], B => B
+  | [l], [] => [l]
+  | [l], b :: bs => (l ++ b) :: bs
+  | l :: l2 :: ls, B => l :: glue (l2 :: ls) B
+
+theorem glue_head (l : List Char) (ls B : List (List Char)) (hB : B ≠ []) :
+    ∃ h t, glue (l :: ls) B = h :: t ∧ ∀ c, glue ((c :: l) :: ls) B = (c :: h) :: t := by
+  cases ls with
+  | nil =>
+    cases B with
+    | nil => exact absurd rfl hB
+    | cons b bs => exact ⟨l ++ b, bs, rfl, fun c => rfl⟩
+  | cons l2 r => exact ⟨l, glue (l2 :: r) B, rfl, fun c => rfl⟩
+
+theorem splitLines_append (a b : List Char) : splitLines (a ++ b) = glue (splitLines a) (splitLines b) := by
+  induction a with
+  | nil =>
+    simp only [List.nil_append, splitLines]
+    cases hb : splitLines b with
+    | nil => exact absurd hb (splitLines_ne_nil b)
+    | cons x xs => simp [glue]
+  | cons c a' ih =>
+    cases ha : splitLines a' with
+    | nil => exact absurd ha (splitLines_ne_nil a')
+    | cons l ls =>
+      rw [ha] at ih
+      obtain ⟨h, t, hg, hcons⟩ := glue_head l ls (splitLines b) (splitLines_ne_nil b)
+      rw [hg] at ih
+      simp only [List.cons_append, splitLines, ih, ha]
+      by_cases hc : c = '\n'
+      · subst hc
+        simp only [if_true]
+        rw [← hg]
+        simp only [glue]
+      · simp only [hc, if_false]
+        exact (hcons c).symm
+
+theorem glue_snoc_single : ∀ (init : List (List Char)) (last x : List Char), glue (init ++ [last]) [x] = init ++ [last ++ x] := by
+  intro init
+  induction init with
+  | nil => intro last x; rfl
+  | cons a rest ih =>
+    intro last x
+    cases rest with
+    | nil => simp only [List.cons_append, List.nil_append, glue]
+    | cons b r =>
+      have := ih last x
+      simp only [List.cons_append] at this ⊢
+      simp only [glue, this]
+
+theorem glue_snoc_newline : ∀ (init : List (List Char)) (last : List Char),
+    glue (init ++ [last]) [[], []] = init ++ [last, []] := by
+  intro init
+  induction init with
+  | nil => intro last; simp [glue]
+  | cons a rest ih =>
+    intro last
+    cases rest with
+    | nil => simp only [List.cons_append, List.nil_append, glue, List.append_nil]
+    | cons b r =>
+      have := ih last
+      simp only [List.cons_append] at this ⊢
+      simp only [glue, this]
+
+/-- the state of the loop of `Comment.__init__`: the text so far ends in a normal piece when a separator is due, in an
+    empty piece otherwise -/
+def StepInv (st : List Char × Bool) : Prop :=
+  ∃ init last, splitLines st.1 = init ++ [last] ∧ (∀ s ∈ init, s = [] ∨ NormalSeg s) ∧
+    (st.2 = true → NormalSeg last) ∧ (st.2 = false → last = [])
+
+theorem normalSeg_append_blank (a b : List Char) (ha : NormalSeg a) (hb : NormalSeg b) : NormalSeg (a ++ ' ' :: b) := by
+  obtain ⟨ha1, ha2, ha3, _⟩ := ha
+  obtain ⟨hb1, hb2, _, hb4⟩ := hb
+  refine ⟨by simp, ?_, ?_, ?_⟩
+  · intro hm
+    simp only [List.mem_append, List.mem_cons] at hm
+    rcases hm with hm | hm | hm
+    · exact ha2 hm
+    · exact absurd hm (by decide)
+    · exact hb2 hm
+  · intro c hc
+    cases a with
+    | nil => exact absurd rfl ha1
+    | cons x xs => exact ha3 c (by simpa using hc)
+  · intro c hc
+    have : (a ++ ' ' :: b).getLast? = b.getLast? := by
+      cases b with
+      | nil => exact absurd rfl hb1
+      | cons y ys =>
+        have : a ++ ' ' :: y :: ys = (a ++ [' ']) ++ (y :: ys) := by simp
+        rw [this, List.getLast?_append]
+        cases hl : (y :: ys).getLast? with
+        | none => simp at hl
+        | some z => simp
+    rw [this] at hc
+    exact hb4 c hc
+
+theorem step_inv (st : List Char × Bool) (line : List Char) (hnl : '\n' ∉ line) (h : StepInv st) :
+    StepInv (step st line) ∧ (∃ init last, splitLines (step st line).1 = init ++ [last] ∧ (init ≠ [] ∨ last ≠ [])) := by
+  obtain ⟨init, last, hsplit, hinit, hsep, hnosep⟩ := h
+  obtain ⟨acc, sep⟩ := st
+  simp only at hsplit hsep hnosep
+  unfold step
+  simp only
+  cases hl : (stripLine line).isEmpty with
+  | true =>
+    have hs : splitLines (acc ++ ['\n']) = (init ++ [last]) ++ [[]] := by
+      rw [splitLines_append, hsplit]
+      have : splitLines ['\n'] = [[], []] := by decide
+      rw [this, glue_snoc_newline]
+      simp
+    have hlast : last = [] ∨ NormalSeg last := by
+      cases sep with
+      | true => exact Or.inr (hsep rfl)
+      | false => exact Or.inl (hnosep rfl)
+    simp only [if_true]
+    refine ⟨⟨init ++ [last], [], hs, ?_, by simp, by simp⟩, ⟨init ++ [last], [], hs, Or.inl (by simp)⟩⟩
+    intro s hs'
+    rcases List.mem_append.1 hs' with h1 | h1
+    · exact hinit s h1
+    · simp only [List.mem_singleton] at h1; subst h1; exact hlast
+  | false =>
+    have hne : stripLine line ≠ [] := by intro he; rw [he] at hl; cases hl
+    have hnorm := normalSeg_stripLine line hnl hne
+    simp only [Bool.false_eq_true, if_false]
+    cases sep with
+    | true =>
+      have hx : '\n' ∉ ([' '] ++ stripLine line) := by
+        intro hm
+        simp only [List.singleton_append, List.mem_cons] at hm
+        rcases hm with hm | hm
+        · exact absurd hm (by decide)
+        · exact hnorm.2.1 hm
+      have hs : splitLines (acc ++ [' '] ++ stripLine line) = init ++ [last ++ ' ' :: stripLine line] := by
+        rw [List.append_assoc, splitLines_append, hsplit, splitLines_single _ hx, glue_snoc_single]
+        simp
+      simp only [if_true]
+      exact ⟨⟨init, _, hs, hinit, fun _ => normalSeg_append_blank last _ (hsep rfl) hnorm, by simp⟩,
+        ⟨init, _, hs, Or.inr (by simp)⟩⟩
+    | false =>
+      have hlast := hnosep rfl
+      subst hlast
+      have hs : splitLines (acc ++ [] ++ stripLine line) = init ++ [stripLine line] := by
+        rw [List.append_nil, splitLines_append, hsplit, splitLines_single _ hnorm.2.1, glue_snoc_single]
+        simp
+      simp only [Bool.false_eq_true, if_false]
+      exact ⟨⟨init, _, hs, hinit, fun _ => hnorm, by simp⟩, ⟨init, _, hs, Or.inr hne⟩⟩
+
+theorem clines_snoc_ne_nil (init : List (List Char)) (last : List Char) (h : init ≠ [] ∨ last ≠ []) :
+    clines (init ++ [last]) ≠ [] := by
+  cases init with
+  | nil =>
+    rcases h with h | h
+    · exact absurd rfl h
+    · cases last with
+      | nil => exact absurd rfl h
+      | cons a r => simp [clines]
+  | cons a rest =>
+    cases hr : rest ++ [last] with
+    | nil => simp at hr
+    | cons b r =>
+      simp only [List.cons_append, hr, clines]
+      simp
+
+theorem mem_splitLines_no_nl : ∀ (cs : List Char), ∀ l ∈ splitLines cs, '\n' ∉ l := by
+  intro cs
+  induction cs with
+  | nil => intro l hl; simp [splitLines] at hl; subst hl; simp
+  | cons c rest ih =>
+    intro l hl
+    cases hp : splitLines rest with
+    | nil => exact absurd hp (splitLines_ne_nil rest)
+    | cons x xs =>
+      rw [hp] at ih
+      simp only [splitLines, hp] at hl
+      by_cases hc : c = '\n'
+      · simp only [hc, if_true, List.mem_cons] at hl
+        rcases hl with rfl | rfl | hl
+        · simp
+        · exact ih _ List.mem_cons_self
+        · exact ih l (List.mem_cons_of_mem _ hl)
+      · simp only [hc, if_false, List.mem_cons] at hl
+        rcases hl with rfl | hl
+        · intro hm
+          simp only [List.mem_cons] at hm
+          rcases hm with hm | hm
+          · exact hc hm.symm
+          · exact ih _ List.mem_cons_self hm
+        · exact ih l (List.mem_cons_of_mem _ hl)
+
+theorem foldl_step_inv : ∀ (lines : List (List Char)) (st : List Char × Bool), (∀ l ∈ lines, '\n' ∉ l) → lines ≠ [] →
+    StepInv st → StepInv (lines.foldl step st) ∧
+      (∃ init last, splitLines (lines.foldl step st).1 = init ++ [last] ∧ (init ≠ [] ∨ last ≠ [])) := by
+  intro lines
+  induction lines with
+  | nil => intro _ _ h; exact absurd rfl h
+  | cons l rest ih =>
+    intro st hnl _ hinv
+    obtain ⟨h1, h2⟩ := step_inv st l (hnl l List.mem_cons_self) hinv
+    cases rest with
+    | nil => exact ⟨h1, h2⟩
+    | cons l2 r => exact ih (step st l) (fun x hx => hnl x (List.mem_cons_of_mem _ hx)) (by simp) h1
+
+/-- **Every comment `Comment.__init__` builds is in normal form**, whatever the text of the token. -/
+theorem normalComment_ofString (s : String) : NormalComment (Comment.ofString s) := by
+  have hstart : StepInv ([], false) := ⟨[], [], rfl, (by intro s hs; cases hs), by simp, by simp⟩
+  obtain ⟨hinv, init', last', hs', hne'⟩ := foldl_step_inv (splitLines s.toList) ([], false) (mem_splitLines_no_nl _)
+    (splitLines_ne_nil _) hstart
+  obtain ⟨init, last, hsplit, hinit, hsep, hnosep⟩ := hinv
+  rw [hsplit] at hs'
+  have hlast : last = [] ∨ NormalSeg last := by
+    cases hb : ((splitLines s.toList).foldl step ([], false)).2 with
+    | true => exact Or.inr (hsep hb)
+    | false => exact Or.inl (hnosep hb)
+  unfold NormalComment
+  simp only [ofString, normalise, String.toList_ofList, hsplit]
+  refine ⟨?_, ?_⟩
+  · intro x hx
+    rcases List.mem_append.1 hx with h1 | h1
+    · exact hinit x h1
+    · simp only [List.mem_singleton] at h1; subst h1; exact hlast
+  · rw [hs']
+    exact clines_snoc_ne_nil init' last' hne'
+
+/-- the second half of `NormalComment` in plain words: the text is not empty -/
+theorem clines_splitLines_ne_nil (cs : List Char) : clines (splitLines cs) ≠ [] ↔ cs ≠ [] := by
+  constructor
+  · intro h he
+    subst he
+    exact h rfl
+  · intro h
+    have hj := joinNL_splitLines cs
+    cases hs : splitLines cs with
+    | nil => exact absurd hs (splitLines_ne_nil cs)
+    | cons l ls =>
+      rw [hs] at hj
+      cases ls with
+      | nil =>
+        simp only [joinNL] at hj
+        subst hj
+        cases l with
+        | nil => exact absurd rfl h
+        | cons a r => simp [clines]
+      | cons l2 r2 => simp [clines]
+
 end SymbolVerif.Cats.Comment
